@@ -294,6 +294,10 @@ pub fn run_w_history(ops: &[WOp], seq: &[usize], cache: &mut RefCache) -> (Optio
                 let a: Vec<String> = got.iter().map(|l| l.to_json()).collect();
                 let b: Vec<String> = sh.iter().map(|l| l.to_json()).collect();
                 if a != b {
+                    // with case-colliding imported words (finding F13) export_words is lossy
+                    if let Some(cls) = has_case_collision(&words) {
+                        return (Some(("F13-case-colliding-imported-words".into(), json!({"step": si, "class": cls, "with": a, "without": b}))), steps, true);
+                    }
                     return (Some(("export-import-changed-behaviour".into(), json!({"step": si, "with": a, "without": b}))), steps, true);
                 }
                 if !ignored.is_empty() || !words.is_empty() || !cfg.is_empty() {
@@ -387,6 +391,23 @@ pub fn run_c16(tier: Tier) -> i32 {
     let mut seqs = sequences(ops.len(), depth);
     // canonicalisation: drop histories that contain no lint operation at all (nothing observable)
     seqs.retain(|s| s.iter().any(|o| matches!(ops[*o], WOp::Lint(..))) || s.len() <= 1);
+    // one level deeper for the shape "lint, ignore, <any operation>, lint the same text again"
+    // (does anything make an ignored lint come back?)
+    if tier == Tier::Quick {
+        for (li, l) in ops.iter().enumerate() {
+            if !matches!(l, WOp::Lint(..)) {
+                continue;
+            }
+            for (ii, i) in ops.iter().enumerate() {
+                if !matches!(i, WOp::Ignore(..)) {
+                    continue;
+                }
+                for x in 0..ops.len() {
+                    seqs.push(vec![li, ii, x, li]);
+                }
+            }
+        }
+    }
     let n = seqs.len() as u64;
     let res = par_chunks(n, 40, ncpu(), |s, e| {
         let mut cache = RefCache { groups: HashMap::new(), results: HashMap::new() };
